@@ -3,6 +3,8 @@ Contract stubs for compiled dependencies. Each returns fresh symbolic values
 constrained only by the library's documented contract and records the arguments
 verde passed. In concrete (replay) mode none of these is installed.
 """
+import contextlib
+
 import numpy as np
 import z3
 
@@ -225,6 +227,31 @@ class StubKDTree:
 # ----------------------------------------------------------------------------
 # verde.coordinates.block_split by the contract that C08 verifies
 # ----------------------------------------------------------------------------
+class Recorder:
+    "pass-through wrapper that records the arguments and result of every call (works in the symbolic run and in replays)"
+
+    def __init__(self, fn):
+        self.fn = fn
+        self.calls = []
+
+    def __call__(self, *args, **kwargs):
+        result = self.fn(*args, **kwargs)
+        self.calls.append({"args": args, "kwargs": kwargs, "result": result})
+        return result
+
+
+@contextlib.contextmanager
+def recording(module, name):
+    "wrap module.name (whatever is bound there now: the real function or its contract) in a Recorder for the duration"
+    old = getattr(module, name)
+    rec = Recorder(old)
+    setattr(module, name, rec)
+    try:
+        yield rec
+    finally:
+        setattr(module, name, old)
+
+
 class BlockSplitContract:
     """block centres come from the real grid_coordinates(pixel_register=True);
     the label of a point is the index (row-major from the south-west) of a block
